@@ -98,6 +98,7 @@ def selfcheck_oracle(spec, N):
         return 0
     chars = sorted({c for _, v in spec.terms.values() for c in v})
     L = refcfg.brute_language(spec, N)
+    Lbig = None
     cnt = 0
     for n in range(N + 1):
         for cs in itertools.product(chars, repeat=n):
@@ -105,6 +106,11 @@ def selfcheck_oracle(spec, N):
             lex, ey = refcfg.analyse(spec, s, n)
             exp = any(tk in L for tk in tokenizations(spec, s))
             cnt += 1
+            if ey.accepted != exp and Lbig is None:
+                # the cheap enumeration prunes long sentential forms (many nullable symbols): redo it generously once
+                Lbig = refcfg.brute_language(spec, N, slack=3 * N + 10)
+                L = Lbig
+                exp = any(tk in L for tk in tokenizations(spec, s))
             if ey.accepted != exp:
                 raise AssertionError("oracle self-validation failed on %r for %s: earley=%s brute=%s" % (s, spec.short(), ey.accepted, exp))
     return cnt
